@@ -148,7 +148,7 @@ pub fn run(rep: &mut Rep) {
     }
     // ---- declared signal length
     let sl = signal.len() as u64;
-    for (kind, declared) in [("0", 0u64), ("1", 1), ("len-1", sl - 1), ("len+1", sl + 1), ("2^32-1", (1 << 32) - 1), ("2^32", 1 << 32), ("2^63", 1 << 63), ("2^64-1", u64::MAX), ("2^64-295", u64::MAX - 294), ("2^64-296", u64::MAX - 295), ("2^64-8", u64::MAX - 7)] {
+    for (kind, declared) in [("0", 0u64), ("1", 1), ("len-1", sl - 1), ("len+1", sl + 1), ("2^32-1", (1 << 32) - 1), ("2^32", 1 << 32), ("2^63", 1 << 63), ("2^64-1", u64::MAX), ("2^64-295", u64::MAX - 294), ("2^64-296", u64::MAX - 295), ("2^64-8", u64::MAX - 7), ("len+2^32", sl + (1 << 32)), ("len+2^33", sl + (1 << 33)), ("len+2^40", sl + (1 << 40)), ("len+2^56", sl + (1 << 56)), ("len+2^63", sl + (1 << 63)), ("len+2^16", sl + (1 << 16)), ("len+2^31", sl + (1 << 31))] {
         let mut r2 = msg.clone();
         r2.extend(enc_u64(declared));
         r2.extend_from_slice(&signal);
@@ -158,7 +158,11 @@ pub fn run(rep: &mut Rep) {
         if v == V::True && declared != sl {
             m.rep.violation("verify_rln_proof:accepts-inconsistent-signal-length", json!({"declared": declared, "present": sl}));
         }
-        m.crash("verify_with_roots(msg)", &k, &v_roots(&c, &r2, &roots1), json!({"declared": declared}));
+        let v2 = v_roots(&c, &r2, &roots1);
+        m.crash("verify_with_roots(msg)", &k, &v2, json!({"declared": declared}));
+        if v2 == V::True && declared != sl {
+            m.rep.violation("verify_with_roots:accepts-inconsistent-signal-length", json!({"declared": declared, "present": sl}));
+        }
     }
     // ---- field / proof replacement
     let fills: Vec<(String, Vec<u8>)> = vec![
